@@ -8,7 +8,7 @@
    No proofs in this file. *)
 From Coq Require Import String List NArith ZArith Bool.
 From J5V.lib Require Import Text.
-From J5V.gen Require UnicodeGen.
+From J5V.gen Require UnicodeGen TokensGen.
 Import ListNotations.
 Local Open Scope bool_scope.
 
@@ -47,14 +47,6 @@ Definition tt_name (t : ttype) : string :=
   end%string.
 
 
-(* TokenType.String(): the `tokens` array *)
-Definition tt_text (t : ttype) : list N :=
-  match t with
-  | INVALID => [73; 78; 86; 65; 76; 73; 68]%N | EOF => [69; 79; 70]%N | EOL => [69; 79; 76]%N | SPACE => [83; 80; 65; 67; 69]%N | IDENT => [73; 68; 69; 78; 84]%N | STRING => [83; 84; 82; 73; 78; 71]%N | REGEX => [82; 69; 71; 69; 88]%N | INT => [73; 78; 84]%N | DECIMAL => [68; 69; 67; 73; 77; 65; 76]%N | BOOL => [66; 79; 79; 76]%N | COMMENT => [67; 79; 77; 77; 69; 78; 84]%N | BLOCK_COMMENT => [66; 76; 79; 67; 75; 95; 67; 79; 77; 77; 69; 78; 84]%N | DESCRIPTION => [68; 69; 83; 67; 82; 73; 80; 84; 73; 79; 78]%N | ASSIGN => [61]%N | LBRACE => [123]%N | RBRACE => [125]%N | LBRACK => [91]%N | RBRACK => [93]%N | DOT => [46]%N | COMMA => [44]%N | COLON => [58]%N | PLUS => [43]%N | BANG => [33]%N | QUESTION => [63]%N | AnyLiteral => [60; 76; 105; 116; 101; 114; 97; 108; 62]%N
-  end.
-(* operator_beg < t < operator_end *)
-Definition is_operator (t : ttype) : bool := N.ltb 15 (tt_code t) && N.ltb (tt_code t) 27.
-
 (* the `operators` map: rune -> operator token (sorted by rune) *)
 Definition model_operators : list (N * ttype) :=
   [(33, BANG); (43, PLUS); (44, COMMA); (46, DOT); (58, COLON); (61, ASSIGN); (63, QUESTION);
@@ -65,6 +57,49 @@ Fixpoint assoc_N {A} (l : list (N * A)) (c : N) : option A :=
   | (k, v) :: r => if N.eqb k c then Some v else assoc_N r c
   end.
 Definition op_of (c : N) : option ttype := assoc_N model_operators c.
+
+(* TokenType.String(): the `tokens` array as the translator reads it from token.go *)
+Definition tt_text (t : ttype) : list N :=
+  match assoc_N TokensGen.token_text (tt_code t) with Some b => b | None => [] end.
+(* operator_beg < t < operator_end *)
+Definition is_operator (t : ttype) : bool := N.ltb 15 (tt_code t) && N.ltb (tt_code t) 27.
+
+Definition ttype_of_code (c : N) : ttype :=
+  match filter (fun t => N.eqb (tt_code t) c) all_tt with t :: _ => t | [] => INVALID end.
+
+(* ---- message texts --------------------------------------------------------------- *)
+(* the texts and formats of the diagnostics are the string literals of the Go functions, read by
+   the translator (TokensGen.func_strings: literals passed to errf / Sprintf / errors.New /
+   strings.Join, in source order; for Token.String every literal) *)
+Fixpoint assoc_s {A} (l : list (string * A)) (k : string) : option A :=
+  match l with
+  | [] => None
+  | (k0, v) :: r => if String.eqb k0 k then Some v else assoc_s r k
+  end.
+Definition slit (fn : string) (i : nat) : list N :=
+  nth i (match assoc_s TokensGen.func_strings fn with Some l => l | None => [] end) [].
+(* fmt.Sprintf restricted to the verbs %s %c %d, the arguments already rendered as bytes *)
+Fixpoint sprintf (f : list N) (args : list (list N)) : list N :=
+  match f with
+  | [] => []
+  | c :: t =>
+    if N.eqb c 37 then
+      match t with
+      | v :: r => if N.eqb v 115 || N.eqb v 99 || N.eqb v 100
+                  then (match args with a :: _ => a | [] => [] end) ++ sprintf r (tl args)
+                  else c :: sprintf t args
+      | [] => [c]
+      end
+    else c :: sprintf t args
+  end.
+(* strings.Join of byte strings *)
+Fixpoint join_bytes (sep : list N) (ls : list (list N)) : list N :=
+  match ls with
+  | [] => []
+  | [l] => l
+  | l :: r => l ++ sep ++ join_bytes sep r
+  end.
+
 
 Definition is_literal (t : ttype) : bool :=
   match t with
@@ -109,12 +144,12 @@ Definition peek (s : lstate) : option N := hd_error (rest s).
 Definition ch_list (s : lstate) : list N := match ch s with Some c => [c] | None => [] end.
 Definition errf (msg : list N) (s : lstate) : diag := mkDiag (get_pos s) (get_pos s) msg.
 (* the lexer's messages *)
-Definition msg_eof : list N := [117; 110; 101; 120; 112; 101; 99; 116; 101; 100; 32; 69; 79; 70]%N.
-Definition msg_eol_regex : list N := [117; 110; 101; 120; 112; 101; 99; 116; 101; 100; 32; 69; 79; 76; 32; 105; 110; 32; 114; 101; 103; 101; 120; 44; 32; 100; 105; 100; 32; 121; 111; 117; 32; 109; 101; 97; 110; 32; 116; 111; 32; 101; 115; 99; 97; 112; 101; 32; 105; 116; 63; 32; 40; 39; 92; 110; 39; 41]%N.
-Definition msg_eol_string : list N := [117; 110; 101; 120; 112; 101; 99; 116; 101; 100; 32; 69; 79; 76; 32; 105; 110; 32; 115; 116; 114; 105; 110; 103; 44; 32; 100; 105; 100; 32; 121; 111; 117; 32; 109; 101; 97; 110; 32; 116; 111; 32; 101; 115; 99; 97; 112; 101; 32; 105; 116; 63; 32; 40; 39; 92; 110; 39; 41]%N.
-Definition msg_escape : list N := [105; 110; 118; 97; 108; 105; 100; 32; 101; 115; 99; 97; 112; 101; 44; 32; 100; 105; 100; 32; 121; 111; 117; 32; 109; 101; 97; 110; 32; 39; 92; 92; 39; 63]%N.
-Definition msg_second_dot : list N := [117; 110; 101; 120; 112; 101; 99; 116; 101; 100; 32; 115; 101; 99; 111; 110; 100; 32; 100; 111; 116; 32; 105; 110; 32; 110; 117; 109; 98; 101; 114; 32; 108; 105; 116; 101; 114; 97; 108]%N.
-Definition msg_char (c : N) : list N := [117; 110; 101; 120; 112; 101; 99; 116; 101; 100; 32; 99; 104; 97; 114; 97; 99; 116; 101; 114; 58; 32]%N ++ utf8_encode [c].
+Definition msg_eof : list N := slit "lexer.go:unexpectedEOF" 0.
+Definition msg_eol_regex : list N := slit "lexer.go:lexRegex" 0.
+Definition msg_eol_string : list N := slit "lexer.go:lexString" 0.
+Definition msg_escape : list N := slit "lexer.go:lexEscape" 0.
+Definition msg_second_dot : list N := slit "lexer.go:lexNumber" 0.
+Definition msg_char (c : N) : list N := sprintf (slit "lexer.go:NextToken" 0) [utf8_encode [c]].
 
 (* skipWhitespace: advance while the next rune is a space other than '\n' *)
 Fixpoint skip_whitespace (fuel : nat) (s : lstate) : option lstate :=
